@@ -8,6 +8,7 @@ import (
 	"errors"
 	"flag"
 	"fmt"
+	"io"
 	"net"
 	"os"
 	"strings"
@@ -116,6 +117,20 @@ func main() {
 	os.Exit(0)
 }
 
+func causeName(err error) string {
+	switch {
+	case err == nil:
+		return "nil"
+	case errors.Is(err, io.EOF):
+		return "eof"
+	case errors.Is(err, syscall.EPIPE):
+		return "werr"
+	case strings.Contains(err.Error(), "overflow"):
+		return "overflow"
+	}
+	return err.Error()
+}
+
 func errName(err error) string {
 	switch {
 	case err == nil:
@@ -131,7 +146,7 @@ func errName(err error) string {
 func runScript(sc *script, sum *summary) (clean bool) {
 	sum.Scripts++
 	lin := true
-	tr.Emit(hlib.Ev{"ev": "reset", "id": sc.ID, "focus": sc.Focus, "maxwb": sc.MaxWB, "lin": lin})
+	tr.Emit(hlib.Ev{"ev": "reset", "id": sc.ID, "focus": sc.Focus, "maxwb": sc.MaxWB, "lin": lin, "sim": true})
 	vsys.Reset(true)
 	s := vrt.New()
 	s.Watchdog = 5 * time.Second
@@ -186,6 +201,13 @@ func runScript(sc *script, sum *summary) (clean bool) {
 					total += x
 				}
 			}
+			if o.Op == "close" {
+				nsid-- // not a stream
+				tr.Emit(hlib.Ev{"ev": "closecall", "t": name, "c": name})
+				_ = c.CloseWithError(errors.New(name))
+				tr.Emit(hlib.Ev{"ev": "closeret", "t": name})
+				continue
+			}
 			dec.AddStream(sid, total)
 			tr.Emit(hlib.Ev{"ev": "call", "sid": sid, "op": o.Op, "n": total, "buf": o.Op != "sendfile", "t": name})
 			var n int
@@ -218,12 +240,13 @@ func runScript(sc *script, sum *summary) (clean bool) {
 		}
 	}
 	g.OnOpen(func(cc *nbio.Conn) {
+		tr.Emit(hlib.Ev{"ev": "open"})
 		doOps("o", sc.Threads["o"])
 	})
 	g.OnData(func(cc *nbio.Conn, data []byte) {})
 	oncloseCh := make(chan struct{}, 4)
 	g.OnClose(func(cc *nbio.Conn, err error) {
-		tr.Emit(hlib.Ev{"ev": "onclose", "err": fmt.Sprint(err)})
+		tr.Emit(hlib.Ev{"ev": "onclose", "err": causeName(err)})
 		oncloseCh <- struct{}{}
 	})
 	if err := g.Start(); err != nil {
@@ -267,6 +290,11 @@ func runScript(sc *script, sum *summary) (clean bool) {
 				vsys.InjectWrite(fd, syscall.EAGAIN)
 			case "epipe":
 				vsys.InjectWrite(fd, syscall.EPIPE)
+				tr.Emit(hlib.Ev{"ev": "cause", "c": "werr"})
+			case "peerclose":
+				vsys.PeerClose(fd)
+				tr.Emit(hlib.Ev{"ev": "cause", "c": "eof"})
+				tr.Emit(hlib.Ev{"ev": "cause", "c": "werr"}) // a write to the closed peer fails too
 			}
 		} else {
 			var err error
@@ -358,7 +386,47 @@ func runScript(sc *script, sum *summary) (clean bool) {
 		case <-time.After(3 * time.Second):
 		}
 	}
-	tr.Emit(hlib.Ev{"ev": "quiesce", "open": !closed, "queued": queued, "kbuf": vsys.State(fd).Kbuf})
+	if sc.Focus == "C03" {
+		if vsys.State(fd).Closes == 0 && !closed && vsys.State(fd).Kbuf >= 0 {
+			// a probe while the connection is open must not be refused (sanity)
+		}
+		if closed {
+			// R3 probes: after Close has returned every operation fails with the closed indication
+			vrt.Install(nil)
+			for _, kind := range []string{"write", "writev", "sendfile", "execute"} {
+				sid := nsid
+				nsid++
+				switch kind {
+				case "write":
+					tr.Emit(hlib.Ev{"ev": "call", "sid": sid, "op": kind, "n": 3, "buf": true, "t": "probe"})
+					n, err := c.Write([]byte("abc"))
+					tr.Emit(hlib.Ev{"ev": "ret", "sid": sid, "n": n, "err": errName(err)})
+				case "writev":
+					tr.Emit(hlib.Ev{"ev": "call", "sid": sid, "op": kind, "n": 4, "buf": true, "t": "probe"})
+					n, err := c.Writev([][]byte{[]byte("ab"), []byte("cd")})
+					tr.Emit(hlib.Ev{"ev": "ret", "sid": sid, "n": n, "err": errName(err)})
+				case "sendfile":
+					f, ferr := os.CreateTemp(tmpdir, "sfp")
+					if ferr == nil {
+						f.Write([]byte("hello"))
+						f.Seek(0, 0)
+						tr.Emit(hlib.Ev{"ev": "call", "sid": sid, "op": kind, "n": 5, "buf": false, "t": "probe"})
+						n, err := c.Sendfile(f, 5)
+						tr.Emit(hlib.Ev{"ev": "ret", "sid": sid, "n": int(n), "err": errName(err)})
+						f.Close()
+						os.Remove(f.Name())
+					}
+				case "execute":
+					ok := c.Execute(func() {})
+					tr.Emit(hlib.Ev{"ev": "exec", "ok": ok})
+				}
+			}
+			vrt.Install(s)
+		}
+	}
+	ks := vsys.State(fd)
+	tr.Emit(hlib.Ev{"ev": "quiesce", "open": !closed, "closed": closed, "queued": queued, "kbuf": ks.Kbuf,
+		"fdcloses": ks.Closes, "badsys": len(vsys.BadSyscalls())})
 
 	// ---- stop the engine (its goroutines are managed: keep stepping while Stop runs) ----
 	done := make(chan struct{})
@@ -427,6 +495,7 @@ func checkState(sum *summary, sc *script, i int, st step, c *nbio.Conn, fd int, 
 		cmp("dis", b2i(ks.Disabled))
 	}
 	cmp("reg_on", b2i(ks.Reg))
+	cmp("fdcloses", ks.Closes)
 	if bad != "" {
 		sum.Drift++
 		drift(sum, sc, i, st, bad)
